@@ -95,10 +95,13 @@ def rest(ctx, chk, zvt, crates):
         t = b.blocks[i]["term"]
         if t["t"] == "switch":
             c = vx.operand(t["d"], i)
-            if c[0] == "bin" and c[1] == "Eq" and c[3][0] == "const":
-                idx = [x for x in walk(c[2]) if x[0] == "call" and x[1] in INDEX and x[2][1] == ("const", 2)]
+            if c[0] == "bin" and c[1] in ("Eq", "Ne") and (c[3][0] == "const" or c[2][0] == "const"):
+                lhs, k = (c[2], c[3]) if c[3][0] == "const" else (c[3], c[2])
+                idx = [x for x in walk(lhs) if x[0] == "call" and x[1] in INDEX and x[2][1] == ("const", 2)]
                 if idx:
-                    marks.append((i, c[3][1], t["else"], dict((v, tb) for v, tb in t["targets"]).get(0)))
+                    zero_t = dict((v, tb) for v, tb in t["targets"]).get(0)
+                    # (block, constant, edge taken when header[2] == constant, edge taken otherwise)
+                    marks.append((i, k[1], t["else"], zero_t) if c[1] == "Eq" else (i, k[1], zero_t, t["else"]))
     if chk.require(len(marks) == 1, "C04-d/marker-test", "read_packet", "expected one test of header[2], found %d" % len(marks), "", b.sp()):
         mbb, mval, mtrue, mfalse = marks[0]
         chk.require(mval == MARKER, "C04-d/marker-constant", "read_packet",
@@ -130,8 +133,22 @@ def rest(ctx, chk, zvt, crates):
         kinds = set()
         for e in defs:
             calls = [x for x in walk(e) if x[0] == "call"]
-            if any(c[1] == "core::num::<impl u16>::from_le_bytes" for c in calls) and \
-                    any(c[1] in INDEX and "Range{3, 5}" in show(c) for c in calls):
+            def bytes_3_4(e_):
+                """the argument of from_le_bytes is header[3..5] (as a slice->array conversion) or [header[3], header[4]]"""
+                if any(c[1] in INDEX and "Range{3, 5}" in show(c) for c in walk(e_) if c[0] == "call"):
+                    return True
+                for a_ in walk(e_):
+                    if a_[0] == "agg" and a_[1] == "array" and len(a_[2]) == 2:
+                        ix = []
+                        for el in a_[2]:
+                            el = strip_ref(el)
+                            if el[0] == "call" and el[1] in INDEX and el[2][1][0] == "const":
+                                ix.append(el[2][1][1])
+                        if ix == [3, 4]:
+                            return True
+                return False
+            le = [c for c in calls if c[1] == "core::num::<impl u16>::from_le_bytes"]
+            if le and bytes_3_4(le[0]):
                 kinds.add("ext-le")
             elif any(c[1] == "core::num::<impl u16>::from_be_bytes" for c in calls):
                 kinds.add("ext-be")
